@@ -468,7 +468,12 @@ fn sched_units(quick: bool) -> Vec<(Vec<String>, usize, usize, usize)> {
         (l(&["ab", "ba", "ab ba"]), 2, 3, if quick { 2 } else { 99 }),
         // more lines than the channel holds, every line with the same word
         (l(&["ab", "ab", "ab", "ab"]), 2, 1, 99),
-        (l(&["ab b", "ab", "b ab", "ab", "ab"]), 3, 2, 99),
+        (l(&["ab b", "ab", "b ab", "ab", "ab"]), 3, 2, if quick { 1 } else { 99 }),
+        // every line has a word of its own with a frequency of its own (2, 3, 5) and training runs to
+        // exhaustion: a line whose counts are lost shows as a missing merge, a line counted twice or
+        // credited to another word as a wrong order (more lines than the channel holds with 1 worker)
+        (l(&["ab ab", "cd cd cd", "ef ef ef ef ef"]), 60, 1, 99),
+        (l(&["ab ab", "cd cd cd", "ef ef ef ef ef"]), 60, 2, if quick { 2 } else { 99 }),
     ];
     if !quick {
         u.push((l(&["abab", "ba", "b ab", "a"]), 60, 2, 99));
@@ -487,6 +492,7 @@ fn check_sched(run: &mut Run, ctx: &mut Ctx, lines: &[String], m: usize, workers
     let (vocab_size, specials) = (320usize, 64 - m);
     let unit_json = json!({"sched": true, "lines": lines, "requested_merges": m, "workers": workers, "bound": bound, "controlled_reducer": controlled_reducer});
     let runp: *mut Run = run;
+    let runp2: *mut Run = runp;
     let make_body = || {
         let (corpus, out) = (corpus.clone(), out.clone());
         move || -> Result<Vec<(u32, Vec<u8>)>, String> {
@@ -535,12 +541,19 @@ fn check_sched(run: &mut Run, ctx: &mut Ctx, lines: &[String], m: usize, workers
         run.num_violations() < 4
     };
     if let Some(choices) = replay {
-        let x = tu_verif::countsched::exec_mode(ThreadKind::BpeCounter, workers, controlled_reducer, &choices, make_body());
-        quiet_panics();
-        if x.choices() != choices {
-            run.violation("machinery-replay-divergence", "machinery", unit_json.clone(), format!("replayed {:?}", x.choices()));
+        // the schedule is owned, the HashMap seeds that break frequency ties inside train_bpe are
+        // not: the same schedule is repeated until the violation shows (as for the Engine A cases)
+        for _ in 0..16 {
+            let x = tu_verif::countsched::exec_mode(ThreadKind::BpeCounter, workers, controlled_reducer, &choices, make_body());
+            quiet_panics();
+            if x.choices() != choices {
+                unsafe { &mut *runp2 }.violation("machinery-replay-divergence", "machinery", unit_json.clone(), format!("replayed {:?}", x.choices()));
+            }
+            check(&x, &choices);
+            if unsafe { &*runp2 }.num_violations() > 0 {
+                break;
+            }
         }
-        check(&x, &choices);
         return;
     }
     let stats = if controlled_reducer {
